@@ -12,6 +12,9 @@ def main(argv):
     if os.environ.get("VERIF_TIER") in ("quick", "thorough") and len(argv) <= 2:
         tier = os.environ["VERIF_TIER"]
     seed = int(os.environ.get("VERIF_SEED", "0"))
+    if tier == "thorough":
+        # every N-th validity query is re-asked of cvc5 (second opinion)
+        os.environ.setdefault("VERIF_CROSSCHECK", "400")
     mod = importlib.import_module("vf.checks." + pid.lower())
     try:
         rc = mod.main(tier, seed)
